@@ -59,6 +59,10 @@ pub struct Scenario {
     pub fix: Value,
     #[serde(default)]
     pub record: bool,
+    /// [from, to]: MPC messages on this directed link are parked at a gate of their own ("msg") and released by
+    /// the driver only when nothing else can move (a slow link; per-pair order is kept: the sender awaits each call)
+    #[serde(default, skip_serializing_if = "Vec::is_empty")]
+    pub slow: Vec<usize>,
 }
 
 /// One driver step, in the JSON shape MC_Server exports.
@@ -134,6 +138,7 @@ pub struct Hub {
     inner: Mutex<HubInner>,
     activity: AtomicU64,
     compiling: AtomicI64,
+    slow: Vec<usize>,
 }
 
 static HUBS: LazyLock<Mutex<HashMap<u64, Arc<Hub>>>> = LazyLock::new(Default::default);
@@ -280,6 +285,7 @@ fn same_gate(a: &Step, b: &Step) -> bool {
         && match a.g.as_str() {
             "cmd" => a.name == b.name,
             "rpc" => a.k == b.k && a.to == b.to,
+            "msg" => a.to == b.to,
             // several notifications of one party may be parked: match on the value if given
             "out" => b.val.is_none() || a.val == b.val,
             _ => true,
@@ -409,6 +415,11 @@ impl PolicyClient for Client {
 
     async fn msg(&self, to: usize, msg: MpcMsg) -> Result<(), CErr> {
         self.hub.bump();
+        if self.hub.slow.len() == 2 && self.hub.slow[0] == self.p && self.hub.slow[1] == to {
+            let mut s = step("msg", self.c, self.p);
+            s.to = Some(to);
+            self.hub.park(s).await;
+        }
         {
             let mut g = self.hub.inner.lock().expect("hub");
             *g.msgs.entry(self.c).or_insert(0) += 1;
@@ -768,6 +779,10 @@ impl Driver {
             s.what = Some(kinds.choose(rng).expect("kinds").to_string());
             return Some(s);
         }
+        // messages on the slow link go last
+        if cands.iter().any(|x| x.g != "msg") {
+            cands.retain(|x| x.g != "msg");
+        }
         let mut s = cands.choose(rng).expect("nonempty").clone();
         if s.g == "rpc" && self.budget.rpcfail > 0 && rng.random_range(0..6) == 0 {
             self.budget.rpcfail -= 1;
@@ -852,6 +867,27 @@ async fn drive(job: ServerJob, hub: Arc<Hub>, jobno: u64, multi: bool) -> Vec<St
                 _ => {}
             }
         }
+        if scripted && st.g != "api" {
+            // the specification runs the MPC protocol as one internal step: messages parked on a slow link are
+            // released (stuttering steps) until the gate the script names shows up
+            loop {
+                let parked = d.hub.parked_steps();
+                if parked.iter().any(|x| same_gate(x, &st)) {
+                    break;
+                }
+                let Some(m) = parked.iter().find(|x| x.g == "msg").cloned() else { break };
+                if !d.do_step(&m) {
+                    break;
+                }
+                k += 1;
+                d.lines.push(json!({"ev": "step", "k": k, "step": m, "scripted": false}).to_string());
+                d.settle().await;
+                d.observe("step");
+                if k >= max_steps {
+                    break;
+                }
+            }
+        }
         let done = d.do_step(&st);
         if !done {
             fails += 1;
@@ -904,6 +940,7 @@ pub fn run_server(job: &ServerJob) -> ServerRun {
         inner: Mutex::new(HubInner::default()),
         activity: AtomicU64::new(0),
         compiling: AtomicI64::new(0),
+        slow: job.scen.slow.clone(),
     });
     HUBS.lock().expect("hubs").insert(jobno, hub.clone());
     let multi = job.runtime == "multi";
